@@ -28,6 +28,18 @@ def _has_call(e, rx):   # existential; the keyword rules use _always_through (un
 from ..common import always_through as _always_through   # noqa: E402
 
 
+def _fn_item(e):
+    x = e
+    for _ in range(8):
+        if x[0] in ('ref', 'deref'):
+            x = x[1]
+        elif x[0] == 'cast':
+            x = x[3]
+        else:
+            break
+    return x[1] if x[0] == 'fnitem' else None
+
+
 def alias_case(ctx, rid):
     """alias words (plus, times, artı, çarpı, ...) of the global and of every language table are matched on the
     lower-cased token text - every definition of the matched text passes through to_lowercase - and the keys are lower-case
@@ -100,6 +112,8 @@ def w1_case(ctx):
     for i in lt.normal_blocks:
         t = lt.blocks[i]['term']
         if t['k'] == 'call' and not t.get('callee') and t.get('fop') is not None and len(t['args']) >= 3:
+            if _fn_item(lt.expr(t['fop'])) is not None and _fn_item(lt.expr(t['fop'])) not in model.language_parsers(ctx):
+                continue               # a regex parser run through a "run this parser" helper, not a language parser
             n += 1
             og = O.origin(lt, lt.expr(t['args'][2]))
             if og == {'derived:to_lowercase(DATA)'}:
@@ -268,6 +282,13 @@ def stage_producers(ctx, stage_body):
             events.append((bid, [(by_fn[c['path']], t['loc'])]))
         elif c and c['path'] in lang:
             events.append((bid, [(fn_key(c['path']), t['loc'])]))
+        elif not c and t.get('fop') is not None and _fn_item(stage_body.expr(t['fop'])) is not None:
+            # a call through a pointer whose value is a known function (a shared "run this parser" helper spliced in)
+            fp = _fn_item(stage_body.expr(t['fop']))
+            if fp in by_fn:
+                events.append((bid, [(by_fn[fp], t['loc'])]))
+            elif fp in lang:
+                events.append((bid, [(fn_key(fp), t['loc'])]))
         elif not c and t.get('fop') is not None:
             derefs = ' '.join(tt['callee']['path'] for _, tt in stage_body.calls(r'as core::ops::Deref>::deref$') if tt.get('callee'))
             # a registry that is a `const` array is named by the constant the pointer is read from
